@@ -130,6 +130,14 @@ class Prov:
                             found = True
         if found:
             return out
+        # scope-aware resolution first (also right for code inlined from a helper, whose spans are elsewhere)
+        if at is not None:
+            from lib import scope_binding, _anc_index
+            anc_ = _anc_index(h).get(id(at))
+            if anc_ is not None:
+                b = scope_binding(h, anc_, name, at)
+                if b and b[0] == "let" and isinstance(b[1].get("init"), dict):
+                    return self.of(h, b[1]["init"], depth + 1)
         # let bindings: the nearest one that precedes the use and does not contain it
         cands = []
         for n, _ in nodes(h["body"], "let"):
